@@ -131,13 +131,15 @@ def dispatch (f : String) (j : Json) : Option Json :=
       | [nPut, ln, endLn, ePre, putLast, sPre] =>
         let off := paramsOffset nPut ln endLn ePre putLast sPre
         let mode : TreeMode := {
-          setAst := (getBool m "set_ast").getD true, isElif := (getBool m "is_elif").getD false,
+          setAst := (getBool m "set_ast").getD true,
           firstLineno := (getNat m "first_lineno").getD 0, delta := (getInt m "delta").getD 0,
           nOldHead := (getNat m "n_old_head").getD 0, nNewHead := (getNat m "n_new_head").getD 0,
-          noEndCopy := (getBool m "no_end_copy").getD false }
-        let fixed := (getBool m "fixed").getD false
-        let z := (if fixed then reparseTreeFixed else reparseTree) off mode ⟨ctx, focus⟩ sub
-        return Json.arr ((flatten z.tree).map (fun (k, p) => Json.arr #[ofNat k, posJson p])).toArray
+          noEndCopy := (getBool m "no_end_copy").getD false, follows := (getBool m "follows").getD false,
+          sameStart := getBool m "same_start", sameParentKind := (getBool m "same_parent_kind").getD true }
+        let g := guardOk mode focus (applyDelta mode.firstLineno mode.delta sub)
+        let z := reparseTree off mode ⟨ctx, focus⟩ sub
+        return Json.mkObj [("guard", Json.bool g),
+          ("tree", Json.arr ((flatten z.tree).map (fun (k, p) => Json.arr #[ofNat k, posJson p])).toArray)]
       | _ => return err "bad off"
   | _ => none
 
